@@ -9,4 +9,4 @@ impl Clone for ReferenceContents { fn clone(&self) -> Self { unimplemented!() } 
 impl std::hash::Hash for NamedSymbol { fn hash<H: std::hash::Hasher>(&self, state: &mut H) { unimplemented!() } }
 impl fmt::Display for NamedSymbol { fn fmt(&self, f: &mut fmt::Formatter<'_>) -> fmt::Result { unimplemented!() } }
 impl<K, V> Default for RefCell<FxHashMap<K, V>> { fn default() -> Self { unimplemented!() } }
-fn main() {}
+// (the crate's main is the one copied from src/bin/rsbdd.rs)
